@@ -49,6 +49,8 @@ func main() {
 			mapiter(*out, replace)
 		case "leveldb":
 			leveldbFeature(*repo, *out, replace)
+		case "clock":
+			clockFeature(*repo, *out, replace)
 		case "sched":
 			if !strings.Contains(" "+*feats+" ", " mapiter ") {
 				mapiter(*out, replace) // the scheduler needs runtime.VerifGoid
